@@ -7,10 +7,11 @@ sys.path.insert(0,os.path.dirname(__file__))
 import selftest
 from concurrent.futures import ThreadPoolExecutor
 ROOT='/verif'
-def one(path):
-    prop=os.path.basename(os.path.dirname(path))
+ALLPROPS=['C%02d'%i for i in range(1,21)]
+def one(job):
+    path,prop=job
     _,status,info=selftest.run_mutant(path,prop)
-    return path,status,info
+    return path+' @'+prop,status,info
 def main():
     args=[a for a in sys.argv[1:] if not a.startswith('-')]
     j=4
@@ -18,14 +19,18 @@ def main():
     paths=[]
     for d in sorted(glob.glob(f'{ROOT}/refactors/C*')):
         if args and os.path.basename(d) not in args: continue
-        paths+=sorted(glob.glob(d+'/*.diff'))
+        paths+=[(p,os.path.basename(d)) for p in sorted(glob.glob(d+'/*.diff'))]
+    # refactors/_all/*.diff are analysed with every property's rules (or the ones named on the command line)
+    for p in sorted(glob.glob(f'{ROOT}/refactors/_all/*.diff')):
+        for prop in (args or ALLPROPS):
+            paths.append((p,prop))
     bad=0
     with ThreadPoolExecutor(j) as ex:
         for path,status,info in ex.map(one,paths):
             # 'MISSED' from selftest's point of view = no new violation = what we want here
             verdict={'MISSED':'silent (ok)','caught':'FALSE ALARM '+info,'stale':'stale patch','does-not-compile':'DOES NOT COMPILE'}[status]
             if status in('caught','does-not-compile'): bad+=1
-            print(f'{verdict:40s} {os.path.relpath(path,ROOT)}' + ('' if status!='does-not-compile' else '\n'+info))
+            if status!='MISSED' or '-v' in sys.argv: print(f'{verdict:40s} {os.path.relpath(path,ROOT)}' + ('' if status!='does-not-compile' else '\n'+info))
     print(f'{len(paths)} behaviour-preserving variants, {bad} reported')
     sys.exit(1 if bad else 0)
 if __name__=='__main__': main()
